@@ -92,7 +92,7 @@ def run_unit(path, rlimit=None, seed=None, extra_args=(), quarantine=(), inline=
         res['inlined'] = list(u.inlined)
     res['assumptions'] = scan_assumptions(text)
     res['assumed_items'] = assumed_items(text)
-    res['extracted'] = [dict(fn=f['qual'], file=f['file'], line=f['line'], props=f['props'], clauses=f['clauses']) for f in u.functions]
+    res['extracted'] = [dict(fn=f['qual'], file=f['file'], line=f['line'], props=f['props'], clauses=f['clauses'], deflabel=f.get('deflabel')) for f in u.functions]
     cmd = ['verus', out, '--output-json', '--time', '--error-format=json', '--multiple-errors', '20',
            '--triggers-mode', 'silent', '--crate-name', 'u_' + u.name]
     if rlimit:
@@ -197,6 +197,12 @@ def run_unit(path, rlimit=None, seed=None, extra_args=(), quarantine=(), inline=
             undecided.append('unlocated error: ' + msg)
             continue
         fl = _failure(d, u)
+        if fl.get('label') is None:
+            # the function's contract lives in a trait-level spec: `//@fn .. | label=NAME PROPS` names its obligation
+            for f_ in u.functions:
+                if f_['name'] == fl['fn'] and f_.get('deflabel') and f_['deflabel'][0]:
+                    fl['label'], fl['props'] = f_['deflabel'][0], (f_['deflabel'][1] or fl.get('props'))
+                    break
         if not any(k in msg for k in VERIF_MSGS):
             undecided.append(_fmt(d, u))
             continue
